@@ -423,7 +423,19 @@ func (d replDriver) Accept(_ context.Context, logs ...drivers.LogWithLedger) ([]
 		}
 		w.nFailed++
 		w.rec("(fail " + strings.Join(rk, " ") + ")")
-		return nil, errors.New("scripted exporter failure")
+		err := errors.New("scripted exporter failure")
+		// the shape drivers.Batcher gives a page split over several flushes of which one failed: per-item errors (ok, fail, ok, ...)
+		// beside the error. Nothing of a failed page counts as acknowledged here: the whole page has to come again.
+		if w.nFailed%2 == 0 && len(logs) >= 2 {
+			errs := make([]error, len(logs))
+			for i := range errs {
+				if i%2 == 1 {
+					errs[i] = err
+				}
+			}
+			return errs, err
+		}
+		return nil, err
 	}
 	w.rec("(ok " + strings.Join(rk, " ") + ")")
 	w.batches++
